@@ -60,6 +60,9 @@ pub struct Project {
     /// files written with CRLF line endings: bit i = operation file i, bit 32+j = schema file j
     #[serde(default)]
     pub crlf: u64,
+    /// a fragment name that two files (which no document brings together) both define
+    #[serde(default)]
+    pub collided_fragment: Option<String>,
 }
 
 #[derive(Clone, Debug, Default)]
@@ -82,6 +85,8 @@ pub struct ProjectOpts {
     pub flag_overrides_pct: u32,
     /// projects without any config file are allowed (the class does not need the config text)
     pub no_config_ok: bool,
+    /// let fragments of files that no document brings together share a name
+    pub fragment_name_collisions: bool,
 }
 
 pub const SANDBOX: &str = "/nvw";
@@ -249,6 +254,84 @@ impl Project {
     }
 }
 
+fn rename_spreads(sel: &mut [SelItem], from: &str, to: &str) {
+    for it in sel.iter_mut() {
+        match it {
+            SelItem::Spread { name, .. } => {
+                if name == from {
+                    *name = to.to_string();
+                }
+            }
+            SelItem::Field { sel: Some(s), .. } => rename_spreads(s, from, to),
+            SelItem::Inline { sel, .. } => rename_spreads(sel, from, to),
+            _ => {}
+        }
+    }
+}
+
+/// Gives two fragments of different files the same name (and the same type condition) when no
+/// document brings the two files together: fragment names only have to be unique per
+/// document, not per project.  Returns the colliding name.
+pub fn collide_fragment_names(ops: &mut [OpFileModel], rng: &mut Rng) -> Option<String> {
+    let model: Vec<(String, Vec<ImportLine>, Vec<String>, bool)> = ops
+        .iter()
+        .map(|f| (format!("/{}", f.path), f.imports.clone(), f.defs.iter().filter(|d| d.is_fragment()).filter_map(|d| d.name().map(String::from)).collect(), true))
+        .collect();
+    let reach: Vec<std::collections::BTreeSet<usize>> = (0..ops.len())
+        .map(|i| {
+            let mut r = crate::e3::reference_closure(&model, i).reach;
+            r.insert(i);
+            r
+        })
+        .collect();
+    let together = |f: usize, g: usize| reach.iter().any(|r| r.contains(&f) && r.contains(&g));
+    let mut cands: Vec<(String, String)> = Vec::new();
+    for (f, ff) in ops.iter().enumerate() {
+        for (g, gf) in ops.iter().enumerate() {
+            if f >= g || together(f, g) {
+                continue;
+            }
+            for a in &ff.defs {
+                for b in &gf.defs {
+                    if let (OpDef::Fragment { name: an, on: ao, .. }, OpDef::Fragment { name: bn, on: bo, .. }) = (a, b) {
+                        if ao == bo && an != bn {
+                            cands.push((an.clone(), bn.clone()));
+                        }
+                    }
+                }
+            }
+        }
+    }
+    if cands.is_empty() {
+        return None;
+    }
+    let (keep, gone) = rng.pick(&cands).clone();
+    // names are project-unique before this step, so a global rename of `gone` is exact
+    for f in ops.iter_mut() {
+        for imp in f.imports.iter_mut() {
+            if let Some(ns) = imp.names.as_mut() {
+                for n in ns.iter_mut() {
+                    if *n == gone {
+                        *n = keep.clone();
+                    }
+                }
+            }
+        }
+        for d in f.defs.iter_mut() {
+            match d {
+                OpDef::Fragment { name, sel, .. } => {
+                    if *name == gone {
+                        *name = keep.clone();
+                    }
+                    rename_spreads(sel, &gone, &keep);
+                }
+                OpDef::Operation { sel, .. } => rename_spreads(sel, &gone, &keep),
+            }
+        }
+    }
+    Some(keep)
+}
+
 fn yaml_scalar(v: &Value) -> String {
     match v {
         Value::String(s) => {
@@ -355,6 +438,14 @@ pub fn gen_project(rng: &mut Rng, o: &ProjectOpts) -> Project {
         },
     );
 
+    let mut ops = ops;
+    let mut collided_fragment = None;
+    if o.fragment_name_collisions {
+        let mut r_col = rng.fork("fragment_name_collisions");
+        if r_col.chance(3, 4) {
+            collided_fragment = collide_fragment_names(&mut ops, &mut r_col);
+        }
+    }
     // ---- config
     let json = r_cfg.chance(1, 3);
     let explicit = r_cfg.chance(1, 4);
@@ -555,6 +646,7 @@ pub fn gen_project(rng: &mut Rng, o: &ProjectOpts) -> Project {
     let mut r_eol = rng.fork("eol");
     let crlf: u64 = if r_eol.chance(1, 6) { if r_eol.chance(1, 2) { u64::MAX } else { r_eol.next_u64() } } else { 0 };
     Project {
+        collided_fragment,
         crlf,
         flags,
         schema,
